@@ -64,6 +64,8 @@ impl<'a> PrettyPrinter<'a> {
     }
 
     pub(super) fn convert_args(&'a self, ctx: Context, args: Args<'a>) -> ArenaDoc<'a> {
+        #[cfg(typstyle_verif)]
+        crate::verif::visit("args", args.to_untyped().span());
         let has_parenthesized_args = has_parenthesized_args(args);
         let parenthesized = if has_parenthesized_args {
             self.convert_parenthesized_args(ctx, args)
@@ -78,6 +80,8 @@ impl<'a> PrettyPrinter<'a> {
         ctx: Context,
         args: Args<'a>,
     ) -> ArenaDoc<'a> {
+        #[cfg(typstyle_verif)]
+        crate::verif::visit("paren_args", args.to_untyped().span());
         let ctx = ctx.with_mode(Mode::CodeCont);
 
         let mut fold_style = self.get_fold_style(ctx, args);
